@@ -80,7 +80,8 @@ MUTANTS += [
     ("c10-loss-inverted", "onl/netdev/wire.py", "random.uniform(0, 1) >= self.loss_rate", "random.uniform(0, 1) < self.loss_rate", ["C10"]),
     ("c10-delay-not-reduced", "onl/netdev/wire.py", "yield env.timeout(delay - queued_time)", "yield env.timeout(delay)", ["C10"]),
     ("c10-cable-shared-wire", "onl/netdev/wire.py", "        dev2.out = self.wire2\n        self.wire2.out = dev1", "        dev2.out = self.wire1\n        self.wire2.out = dev1", ["C10"]),
-    ("c10-delay-drawn-at-put", "onl/netdev/wire.py", "        packet.current_time = self.env.now\n        self.store.put(packet)", "        packet.current_time = self.env.now + (0.25 if self.store.items and len(self.store.items) > 3 else 0)\n        self.store.put(packet)", ["C10"]),
+    ("c10-delay-drawn-at-put", "onl/netdev/wire.py", "        self.store.put((packet, self.env.now))", "        self.store.put((packet, self.env.now + (0.25 if self.store.items and len(self.store.items) > 3 else 0)))", ["C10"]),
+    ("c10-entry-time-read-from-packet", "onl/netdev/wire.py", "queued_time = self.env.now - entered", "queued_time = self.env.now - packet.current_time", ["C10"]),
 ]
 
 MUTANTS += [
